@@ -8,6 +8,21 @@ TEXT = {
         "level_text": "Exploration: generated events over all Unicode scalar values are serialized, signed and altered; Serialize() must equal an independently written canonical serializer byte for byte, every signed event must verify and each of ~14 single alterations must not. Sound, not exhaustive.",
         "level_note": "Trusted: harness/gen/nip01.go canonical serializer (written from the NIP text), btcec/v2/schnorr as BIP-340 implementation, crypto/sha256. Strings are valid UTF-8.",
     },
+    "C03": {
+        "technique": "stateful property-based testing (rapid): generated insertion histories, after every step generated filter lists are queried and judged by a tie-tolerant reference query oracle over the observed retained set",
+        "level_text": "Exploration: thousands of histories x queries after every step; the oracle accepts exactly the answers that are unions of 'limit newest matching' sets under some tie-break, so index-path and scan-path filters are held to the same specification.",
+        "level_note": "Trusted: harness/model/query.go (oracle), harness/gen/nip01.go (predicate). Only states reachable through Add. Filter tag values never \"\".",
+    },
+    "C04": {
+        "technique": "stateful property-based testing (rapid) as step-by-step refinement: every observed Add transition must be in the specification's nondeterministic transition relation computed from the observed retained set",
+        "level_text": "Exploration: ~25 transitions per history, thousands of histories per run over all event classes, arrival orders, equal timestamps and capacities 1-8 (and 30-150); each transition is checked against Allowed(S,cap,e) plus the invariants.",
+        "level_note": "Trusted: harness/model/store.go. Equal-timestamp versions, d-less addressable events and address references to replaceable events are admitted either way (statement silent).",
+    },
+    "C05": {
+        "technique": "stateful property-based testing (rapid): multi-author histories with targeted deletion requests; deletion and author-isolation clauses of the transition relation checked at every step",
+        "level_text": "Exploration: same machine as C04 focused on the deletion clauses: exact removal set of each kind-5, suppression while retained, re-insertion after it left, and no effect of one author's events on another's except the capacity victim.",
+        "level_note": "Trusted: harness/model/store.go (Refs/OpenRef). e values are ids, a values are addresses (the two are not mixed); self-referencing deletion requests cannot exist with hashed ids.",
+    },
     "C10": {
         "technique": "property-based testing (rapid): grammar-generated wire texts with near-miss mutations against a no-panic / completeness / decode-encode-decode oracle, value round trips for all 14 types, repository corpus replay; native go fuzz target in the thorough tier",
         "level_text": "Exploration: tens of thousands of generated and mutated JSON texts per run go through ParseClientMsg and json.Unmarshal of all 14 exported types (no panic, complete value, idempotent re-decode), and generated values of every type are round-tripped; thorough adds a coverage-guided fuzz campaign with the same oracle inside the target.",
